@@ -231,6 +231,7 @@ class Runner:
                     try:
                         new = t.stack(pool[j])
                         newsh = np.hstack((sh[i], sh[j]))
+                        copied = True
                     except ValueError:
                         if pool[j].n_frames == t.n_frames:
                             self.problem("stack-refused", "stack of trajectories with equal frame counts raised")
@@ -295,7 +296,7 @@ class Runner:
                 for j, o in enumerate(pool):
                     if np.shares_memory(new._xyz, o._xyz):
                         self.problem("shares-xyz", "%s: result coordinates share memory with trajectory %d" % (tok, j))
-                    if op in ("g", "j", "a") and (np.shares_memory(new._time, o._time)
+                    if op in ("g", "j", "a", "k") and (np.shares_memory(new._time, o._time)
                                                   or (new._unitcell_lengths is not None and o._unitcell_lengths is not None and np.shares_memory(new._unitcell_lengths, o._unitcell_lengths))
                                                   or (new.topology is not None and new.topology is o.topology)):
                         self.problem("shares-data", "%s: result shares time/cell/topology with trajectory %d" % (tok, j))
